@@ -1,0 +1,29 @@
+//go:build verif
+// +build verif
+
+package memcache
+
+import (
+	"bufio"
+	"io"
+)
+
+// Verification shims (build tag "verif"): drive a ServerConn over any byte stream.
+
+// NewServerConnVerif builds a server connection over an arbitrary stream (newServerConn needs a net.Conn
+// only for the remote address).
+func NewServerConnVerif(rwc io.ReadWriteCloser) *ServerConn {
+	c := new(ServerConn)
+	c.RemoteAddr = "verif"
+	c.rwc = rwc
+	c.rbuf = bufio.NewReader(c.rwc)
+	c.wbuf = bufio.NewWriter(c.rwc)
+	c.req = new(Request)
+	return c
+}
+
+// VerifClosing reports whether the connection decided to close after the current reply (Serve's loop condition).
+func (c *ServerConn) VerifClosing() bool { return c.closeAfterReply }
+
+// VerifBuffered is the number of request bytes read from the stream but not yet consumed.
+func (c *ServerConn) VerifBuffered() int { return c.rbuf.Buffered() }
